@@ -28,6 +28,21 @@ points) translated far from the origin by an exact integer offset ((5e5, 4.1e6, 
 absolute coordinates ~1e6 times the size of the mesh).  The offset is subtracted exactly from every returned
 coordinate before snapping and TLC judges in the lattice frame; rejections there carry "@<placement>".
 
+Audit round (coverage of the quantifier "all meshes, all rays"; see CONFIGS and mesh_table):
+  configurations  seeded disjoint shares of the sample are run again (a) with the whole scene scaled by 2^-6 and
+                  2^10, (b) with the direction vector multiplied by 2^-20 .. 2^20, (c) through the other entry points
+                  (Trimesh(use_embree=False).ray / .contains / signed distance with native containment, the function
+                  ray_triangle_id without tree and normals, embree with scale_to_box=False, lists / int64 arrays as
+                  input), (d) after a history: queries first, then apply_translation / `vertices +=` / apply_scale,
+                  then the same intersector objects (native instance, mesh.ray, mesh.nearest) queried with the
+                  caller's own arrays handed to every call.  All are exact maps of the lattice scene (power-of-two
+                  scale, integer offset), undone exactly before snapping; TLC judges in the lattice frame and the
+                  clause carries "@<configuration>".
+  meshes          a cube with vertices no face refers to (nearest.vertex answers over mesh.vertices; the surface
+                  queries must ignore them) and a row of eleven tetrahedra (a ray along the row crosses 22 triangles).
+  Named deviation EmbreeMultiHitCap (RayProx.tla, Truncated): a ray crossing more than 20 triangles for which
+  exactly the 20 nearest crossings are reported.
+
 Named deviation (RayProx.tla, EngClause): CoplanarRayPhantomHit - a first-hit query names a triangle
 whose supporting plane contains the ray although the ray is clear of the triangle.  Observed on the
 pinned tree with the float32 embree engine (intersects_first / intersects_any / intersects_id(
